@@ -33,7 +33,10 @@ def all_units():
             if getattr(lib.contracts[cls][fn], "assumed", False):
                 continue
             out.append(("stores", cls, fn))
-    for name in ("edges", "qstore", "nodes"):
+    flib = get_lib("frame")
+    for rel in sorted(flib.contracts["package"]):
+        out.append(("frame", "package", rel))
+    for name in ("edges", "conveyors", "qstore", "nodes"):
         if not os.path.exists(os.path.join(ROOT, "contracts", name + ".py")):
             continue
         lib = get_lib(name)
@@ -60,10 +63,12 @@ def shards_for(unit):
 def assumed_contracts():
     """contracts that are used by callers but whose bodies are NOT verified (reported in every evidence file)"""
     out = []
-    for name in ("stores", "edges", "qstore", "nodes"):
+    for name in ("stores", "edges", "conveyors", "qstore", "nodes"):
         lib = get_lib(name)
         for cls, cs in lib.contracts.items():
             for fn, con in cs.items():
+                if con is None:
+                    continue
                 if getattr(con, "assumed", False):
                     out.append("%s:%s.%s" % (name, cls, fn))
     return sorted(out)
@@ -77,6 +82,9 @@ def unit_props(unit):
 def run_unit(arg):
     """worker: verify one unit.  arg = (libname, cls, fname, timeout_ms, want_models)"""
     libname, cls, fname, timeout_ms, want_models = arg[:5]
+    if libname == "frame":
+        from contracts.frame import run_frame_unit
+        return run_frame_unit(fname)
     shard = arg[5] if len(arg) > 5 else None
     carve = arg[6] if len(arg) > 6 else None
     t0 = time.time()
